@@ -130,6 +130,14 @@ CHECKS = {
             "re-computes every lookup answered from a dict inherited through a recycled id.",
             "Histories are sampled; id() recycling is provoked and counted, not forced. Messages of exceptions are compared with addresses masked.",
             "DESIGN.md 3/C11"),
+    "C12": ("exploration",
+            "runtime monitoring: stress with schedule perturbation (K-SCHED: switch interval 1us + yield injection at sys.monitoring LINE / PY_START events in the code touching shared caches), client-boundary history checked offline against sequential goldens, K-CACHE",
+            "2-16 barrier-started threads run compile / decompile jobs (any assignment, the same input on several threads, failing inputs) "
+            "with the static ANTLR caches reset to their cold state before most schedules; each recorded call must return the record a fresh "
+            "interpreter computes for its input and must not raise unless that one does. Evidence counts overlapping call pairs, thread "
+            "switches observed at the instrumented sites, distinct interleaving signatures and injected yields per site.",
+            "Only GIL interleavings exist here; schedules are sampled. No compiler sanitizer applies (pure Python, no native code of the repo).",
+            "DESIGN.md 3/C12"),
 }
 
 NOT_YET = {
